@@ -54,6 +54,11 @@ pub fn run(args: &Args, r: &mut Report) {
         case.shape.push(l1);
         case.shape.push(l2.clone());
         case.nontrivial = l2.contains('h');
+        // in a third of the cases the process dies at a random boundary interaction instead of at the end
+        if rng.chance(1, 3) {
+            case.crash_at = Some(rng.below(160));
+            case.shape.push("crash".into());
+        }
         let next = case.setup.clone();
         let run = run_case_restart(&case, &[next], &mut rng, 0);
         r.eval(case.shape_key(), case.nontrivial);
